@@ -19,6 +19,7 @@ func timed(name string, f func()) {
 
 func main() {
 	r := vlib.Start("C10", "exploration")
+	r.ScaleQuick(3) // quick tier: 3x the case counts written at the sections (still well under a minute)
 	r.Rule("seeded input meshes (icospheres, tori with 3..8-gon sections, own grid boxes / voxel shapes / punched plates with exactly planar faces, MarchingCubes of own CSG solids, tetrahedra/bipyramids/prisms/octahedra, two-component and nested-shell meshes, anisotropically flattened slivers, SubdivideEdges of coarse polyhedra; 2D: integer polygons with exactly colinear runs, star polygons, pixel-region outlines, holes, bare triangles) are certified closed/oriented/manifold by the harness's raw-face walker before use; each operation (and each step of random chains of 2-5 operations) is judged by the same walker (closed, manifold, oriented, Euler characteristic, components) and by the rule its documentation publishes, recomputed independently; a case is non-trivial if the operation changed the mesh (distinct by input descriptor + parameters)")
 	r.Assume("vertices are identified by bit-identical coordinates (+0 == -0), as the library's meshes do")
 	r.Assume("an operation that moves vertices may map two vertices to identical coordinates without defect: outputs with fewer distinct vertices than the vertex bijection implies are undecided, not violations")
